@@ -17,6 +17,8 @@ package zsimrt
 
 import (
 	"runtime"
+	"sync"
+	"sync/atomic"
 )
 
 // MaxTasks bounds the number of caller tasks in one simulated run.
@@ -887,8 +889,44 @@ func handOff(t int) {
 	cur = nxt
 }
 
+// ---- degraded mode: no inserted yields, no baton --------------------------------
+//
+// Used only when the library contains constructs the simulator does not own (its
+// own goroutines, channels, select). Tasks are plain goroutines scheduled by the
+// Go runtime; the oracles are unchanged but nothing is replayable.
+
+var (
+	free        bool
+	freeWG      sync.WaitGroup
+	freeStarted [MaxTasks]atomic.Bool
+)
+
+// RunFree runs the tasks as ordinary concurrent goroutines.
+func RunFree(n int, initial []int, fn func(task int)) {
+	for i := range freeStarted {
+		freeStarted[i].Store(false)
+	}
+	body = fn
+	nTasks = n
+	free = true
+	for _, t := range initial {
+		freeStarted[t].Store(true)
+		freeWG.Add(1)
+		go func(t int) { defer freeWG.Done(); fn(t) }(t)
+	}
+	freeWG.Wait()
+	free = false
+}
+
 // Spawn starts task t from the current task (late spawn).
 func Spawn(t int) {
+	if free {
+		if t < nTasks && freeStarted[t].CompareAndSwap(false, true) {
+			freeWG.Add(1)
+			go func() { defer freeWG.Done(); body(t) }()
+		}
+		return
+	}
 	if !spawnMark(t) {
 		return
 	}
